@@ -175,7 +175,8 @@ def h_strtab(ctx):
     cfg = ctx.cfg
     n = cfg['n']
     SEC = ctx.lib('elf.sections')
-    cells = [ctx.int_range('t[%d]' % i, 0, 127) for i in range(n)]
+    long = cfg.get('long', 0)       # a long string: `long` letters, then the symbolic cells
+    cells = [0x41] * long + [ctx.int_range('t[%d]' % i, 0, 127) for i in range(n - long)]
     base = cfg.get('base', 0)
     image = [0x41] * base + cells + ([0x41] * cfg.get('tail', 0))
     elf = _Elf(ctx, ctx.stream(image), 64, True)
@@ -303,6 +304,7 @@ def _in_seg_instances(tier):
 def _strtab_instances(tier):
     out = [dict(n=n, base=b) for n in (1, 2, 5, 8) for b in (0, 3)]
     out += [dict(n=70, base=0, offs=(0, 6)), dict(n=70, base=1, offs=(60, 69)), dict(n=8, base=60, offs=(0, 7), tail=2)]
+    out += [dict(n=f + 3, long=f, base=0, offs=(0, 2)) for f in (4093, 65533, 65600, 131070)]      # strings around 4, 64 and 128 KiB
     if tier == 'thorough':
         out += [dict(n=12, base=1), dict(n=130, base=0, offs=(60, 70)), dict(n=130, base=0, offs=(120, 129), tail=1)]
     return out
